@@ -301,7 +301,8 @@ def r3_no_writer_of_final(repo=None):
         site = "%s:%s %s h5py.File mode=%r" % (m.rel, n.lineno, q, mode)
         if mode == "r":
             r.ok(site, "read-only open")
-        elif (m.name, q) in writer_ok:
+        elif (m.name, q) in writer_ok or (m.name == "digital_metadata" and q.startswith("DigitalMetadataWriter.")):
+            # writer role = any method of the metadata writer class (private helpers may be renamed or split)
             # the write-mode sites must not target RF data files: their path argument is a properties file or a
             # Digital Metadata file name
             arg = ast.unparse(n.args[0]) if n.args else "?"
